@@ -437,9 +437,9 @@ def run_batch(ctx, cases, workers, window, stop_at=None, samples_wanted=0):
         z = STATE.get("zygote")
         t0 = time.time()
         if z is not None and not z.dead:
-            res = z.call("vf.c13_case:run_case", a, timeout=6 * window + 240)
+            res = z.call("vf.c13_case:run_case", a, timeout=8 * window + 260)
         else:
-            res = iso.call("vf.c13_case:run_case", a, timeout=6 * window + 240)
+            res = iso.call("vf.c13_case:run_case", a, timeout=8 * window + 260)
         res["wall"] = round(time.time() - t0, 2)
         return a, res
 
